@@ -25,3 +25,14 @@ Proof.
   rewrite (decide_tt L dv t1 prems concl OK H1), (decide_tt L dv t2 prems concl OK H2). reflexivity.
 Qed.
 Print Assumptions C09_prop_same_verdict.
+
+(* the same over arbitrary (finite or infinite) structures *)
+From PT Require Import Sem.AModel Tab.ASound.
+Theorem C09_no_conflict_all_structures : forall L, fsound_ok L ->
+  (fl_hd L = false -> neg_flips_t (s_t (fl_S L)) = true) ->
+  forall t prems concl prems',
+    gcheck L t (trunk (fl_hd L) 0 prems concl) [] = true -> gall_closed t = true ->
+    (forall p, In p prems -> In p prems') ->
+    forall (M : amodel (fl_S L)), amodel_ok L M -> forall u ce, ~ acountermodel (fl_S L) M u ce prems' concl.
+Proof. exact no_conflict_a. Qed.
+Print Assumptions C09_no_conflict_all_structures.
